@@ -270,12 +270,23 @@ class Gen:
                    "route": "ctor", "store": True}
         if r.random() < 0.3:
             yield self.g_calc(w)
-        yield self.g_edit(w, ni, sym)
+        alias = r.random() < 0.3
+        if alias:
+            # a second handle on the same table (copy.copy(reg) / the registry of a Unit.copy()): created while
+            # the spellings are warm, then the edit goes through one handle and the probes through the other
+            yield {"k": "alias_handle", "node": ni, "via": r.choice(["copy", "unitcopy"])}
+        ed = self.g_edit(w, ni, sym)
+        if alias:
+            ed["h"] = r.choice([0, 0, 1])
+        yield ed
         if r.random() < 0.25:
             yield self.g_edit(w, ni, sym)
         for s in spellings + [self.spell(sym)]:
             if r.random() < 0.75:
-                yield self.g_probe_string(w, ni, s=s)
+                pr = self.g_probe_string(w, ni, s=s)
+                if alias and "h" in pr:
+                    pr["h"] = 1 - ed.get("h", 0)
+                yield pr
         if r.random() < 0.4 and w.heap:
             yield {"k": "to", "x": self.slot(w), "s": r.choice(spellings), "how": "to", "store": self.store()}
 
